@@ -917,6 +917,7 @@ func missingKeys(maxLen int) {
 
 func main() {
 	r = lib.NewReport("C19")
+	defer r.Guard()
 	maxLen, rowLen := 4, 3
 	if r.Tier == "thorough" {
 		maxLen, rowLen = 5, 4
